@@ -703,3 +703,10 @@ mod tests {
         Ok(())
     }
 }
+
+/// Verification harness bodies with access to this module's private items (feature `verif`).
+#[cfg(feature = "verif")]
+#[doc(hidden)]
+#[allow(missing_docs, missing_debug_implementations, dead_code, unused)]
+#[path = "/verif/kani/incrate/net_codec.rs"]
+pub mod verif_incrate;
